@@ -178,6 +178,20 @@ def r3_setters(idx, r):
     txt = norm(f.node)
     ok = "val * factor for nuc, val in self.getNumberDensities().items()" in txt and "self.p.detailedNDens *= factor" in txt and "self.p.pinNDens *= factor" in txt and "self.setNumberDensities(densitiesScaled)" in txt
     r.require(ok, "ArmiObject.changeNDensByFactor", f, msg="every nuclide, and the detailed and pin densities, are scaled by the same factor")
+    # ArmiObject.changeNDensByFactor is what blocks, assemblies and cores inherit; a side table that not every level defines as a parameter
+    # must be tested for membership before it is touched, or the call raises AFTER the children's densities were already rescaled
+    levels = ("armi.reactor.components.componentParameters", "armi.reactor.blockParameters", "armi.reactor.assemblyParameters", "armi.reactor.reactorParameters")
+    for fld in ("detailedNDens", "pinNDens"):
+        defined = [lv for lv in levels if idx.modules.get(lv) is not None and any(isinstance(x, ast.Constant) and x.value == fld for fn in idx.modules[lv].all_funcs() for cc in iter_calls(fn.node)
+                                                                                  if call_attr(cc) == "defParam" for x in cc.args[:1])]
+        if len(defined) == len(levels):
+            continue
+        aug = [n for n in walk_local(f.node) if isinstance(n, ast.AugAssign) and norm(n.target) == f"self.p.{fld}"]
+        for a in aug:
+            conds = " and ".join(norm(t) for t, p in path_conditions(f.node, a) if p)
+            r.require(f"'{fld}' in self.p" in conds or f"hasattr(self.p, '{fld}')" in conds, f"ArmiObject.changeNDensByFactor:{fld}:only-where-defined", f, node=a,
+                      msg=f"`self.p.{fld}` is a parameter of {len(defined)} of the {len(levels)} levels only; reading it on the others raises AttributeError - after setNumberDensities has already "
+                          "rescaled every child, so the call fails half done")
     f = c.methods["_changeOtherDensParamsByFactor"]
     r.require("self.p.detailedNDens *= factor" in norm(f.node) and "self.p.pinNDens *= factor" in norm(f.node), "Component._changeOtherDensParamsByFactor", f, msg="detailed and pin densities follow the same factor")
     f = ao.methods["setMassFrac"]
